@@ -6,7 +6,8 @@ from props import solver_common as sc
 
 ID = 'C05'
 PROPS_FILE = 'Props/C05.v'
-MODEL_FILES = ['Solver/Solver.v', 'Solver/SolverF.v', 'Solver/SolveAll.v', 'Solver/SolveAllSpan.v', 'Solver/SolveAllF.v']
+MODEL_FILES = ['Solver/Solver.v', 'Solver/SolverF.v', 'Solver/SolveAll.v', 'Solver/SolveAllSpan.v', 'Solver/SolveAllPeriod.v', 'Solver/SolveAllF.v',
+               'Solver/SolveAllHistF.v']
 K_NAME = ('K_solve (SolveAll.solve_M / solve_period_M over Solver.solve_t_M, instantiated with PrimFloat, with SolveAllSpan.locate_span = '
           'the dispatch of _locate_period_in_span over the regenerated _VALID_INDEX_METHODS (list.index / NumPy fallback / modelled '
           'pandas get_loc), vs SolverMixin.solve / solve_period / iter_periods of scripted and parser-built models over range, list, '
@@ -19,7 +20,7 @@ RULE = ('scripted models over span types {range, list / tuple of str, NumPy int 
         '(so reversed, equal, boundary and unknown pairs are all present) x a fault (exception in a pass, exception in the pre-hook, '
         'NaN, +inf, non-convergence, warning) at each position in turn (thorough tier: every kind at every position up to length 3) x errors / failures / catch_first_error / min_iter / max_iter / '
         'offset / tol sampled; offsets -2..2 over whole spans and ranges touching either end (IndexError containment); lags and leads 0..2 incl. spans too short for them and explicit starts before the first feasible period; '
-        'solve_period(label) for every label spec; iter_periods(start, end) itself for every pair (pairs and len() compared); parser-built models (recursive, simultaneous, lagged and leading equations, 1/X[-1], '
+        'histories of 2..7 steps on ONE instance (solve_t / solve_period / solve with their own options and offsets, copy(), reindex(same span), whole-series list and direct cell assignments incl. NaN; re-solved periods) compared step by step with single-period calls on a twin; solve_period(label) for every label spec; iter_periods(start, end) itself for every pair (pairs and len() compared); parser-built models (recursive, simultaneous, lagged and leading equations, 1/X[-1], '
         'log) whose class-level LAGS / LEADS come from the real parser, the recorded per-pass columns being the model\'s script. Each case runs solve() (or solve_period) and, on a twin instance, the plain loop of '
         'solve_t over the positions the statement names. Non-trivial = at least two periods visited, or a fault / label error / '
         'infeasible period was met; distinct by hash of the whole case.')
@@ -39,6 +40,8 @@ FAULTS = ['exc', 'hookexc', 'nan', 'inf', 'noconv', 'warn']
 
 
 def impl(case):
+    if case.get('kind') == 'hist':
+        return sc.impl_hist(case)
     if case.get('kind') == 'parsed':
         return sc.impl_solve_parsed(case)
     return sc.impl_solve(case)
@@ -119,7 +122,7 @@ PARSED = [
 
 def parsed_case(rng, nmax):
     eqs, init = PARSED[rng.randrange(len(PARSED))]
-    st = rng.choice(list(sc.SPAN_KIND))
+    st = rng.choice([t for t in sc.SPAN_KIND if t not in sc.RX_KIND])
     n = rng.randint(1, nmax + 1)
     sp = specs_for(st, n)
     o = rand_opts(rng)
@@ -135,14 +138,14 @@ def gen(rng, tier):
     cases = []
     quick = tier == 'quick'
     nmax = 4 if quick else 5
-    types = list(sc.SPAN_KIND)
+    types = [t for t in sc.SPAN_KIND if t not in sc.RX_KIND]          # the rx_* types belong to the histories with reindex()
     # every (start, end) pair for every span type and length (quick tier: every pair up to length 3, a sample of pairs at length 4)
     for st in types:
         for n in range(0, nmax + 1):
             sp = specs_for(st, n)
             pairs = [(a, b) for a in sp for b in sp]
             if quick and (n >= 4 or len(pairs) > 49):
-                pairs = rng.sample(pairs, 12 if n >= 4 else 40)
+                pairs = rng.sample(pairs, 10 if n >= 4 else 36)
             if not quick and (n >= 5 or len(pairs) > 100):
                 pairs = rng.sample(pairs, min(len(pairs), 36 if n >= 5 else 100))
             for a, b in pairs:
@@ -186,7 +189,7 @@ def gen(rng, tier):
                     cases.append(build(rng, st, n, ['pos', rng.randrange(n)], ['pos', n - 1], offset=off,
                                        fault=(rng.randrange(n), rng.choice(FAULTS)) if rng.random() < 0.3 else None))
     # min_iter > max_iter, max_iter = 0, an invalid `errors`, random offsets
-    for _ in range(300 if quick else 3000):
+    for _ in range(200 if quick else 3000):
         st = rng.choice(types)
         n = rng.randint(1, nmax)
         sp = specs_for(st, n)
@@ -194,18 +197,34 @@ def gen(rng, tier):
                             dict(errors='bogus')])
         cases.append(build(rng, st, n, rng.choice(sp), rng.choice(sp), fault=(rng.randrange(n), rng.choice(FAULTS)) if rng.random() < 0.5 else None,
                            **extra))
+    # histories on one instance: solver calls interleaved with copy(), reindex(same span), whole-series and cell assignments
+    for _ in range(350 if quick else 5000):
+        cases.append(sc.hist_case(rng))
     # parser-built models: real LAGS / LEADS, simultaneous and recursive systems, natural faults (1/X[-1], log)
-    for _ in range(500 if quick else 6000):
+    for _ in range(350 if quick else 6000):
         cases.append(parsed_case(rng, nmax))
     return cases
 
 
 # --------------------------------------------------------------------------- correspondence
 def correspond(cases, obs, tag, tier):
-    return sc.correspond_solve([view(c, o) for c, o in zip(cases, obs)], obs, tag)
+    plain = [(i, view(c, o), o) for i, (c, o) in enumerate(zip(cases, obs)) if c.get('kind') != 'hist']
+    hist = [(i, c, o) for i, (c, o) in enumerate(zip(cases, obs)) if c.get('kind') == 'hist']
+    bad, errs = [], []
+    if plain:
+        b, e = sc.correspond_solve([x[1] for x in plain], [x[2] for x in plain], tag + 'a')
+        bad += [plain[j][0] for j in b]
+        errs += e
+    if hist:
+        b, e = sc.correspond_hist([x[1] for x in hist], [x[2] for x in hist], tag + 'h')
+        bad += [hist[j][0] for j in b]
+        errs += e
+    return sorted(bad), errs
 
 
 def explain(case, obs):
+    if case.get('kind') == 'hist':
+        return sc.explain_hist(case, obs)
     return sc.explain_solve(view(case, obs), obs)
 
 
@@ -232,7 +251,26 @@ def default_by_label_class(case):
     return (case['start'] is None and 0 <= a < n and cnt[a] >= 2) or (case['end'] is None and 0 <= b < n and cnt[b] >= 2)
 
 
+def oracle_hist(case, obs):
+    """Histories on one instance (solver calls interleaved with copy(), reindex(same span), whole-series and cell assignments): at
+    every step solve() must be identical — outcome and model state — to the plain loop of solve_t over the positions the statement
+    names, and solve_period(label) to solve_t(position), carried out on a twin instance that went through the same history."""
+    if not obs['twin_diff']:
+        return []
+    k, got, want, st_m, st_t = obs['twin_diff'][0]
+    call = case['calls'][k]
+    c1 = dict(case, start=call.get('start'), end=call.get('end'), entry=call['api'])
+    what = ('step %d of the history, %s(%s) on a %s span: outcome %s, status / iterations %s; the single-period calls on the twin give %s, %s'
+            % (k, call['api'], {x: call[x] for x in ('t', 'start', 'end') if x in call}, case['span_type'], got, st_m, want, st_t))
+    if call['api'] == 'solve' and default_by_label_class(c1):
+        return [{'sig': KNOWN_DEFAULTS_SIG, 'what': 'solve() with a default start / end on a span in which the label of the default period is '
+                 'carried by several periods (the default position is converted to its label and looked up again); ' + what}]
+    return [{'sig': 'C05|history|vs-single-period-calls', 'what': what}]
+
+
 def oracle(case, obs):
+    if case.get('kind') == 'hist':
+        return oracle_hist(case, obs)
     fails = _oracle(case, obs)
     c = view(case, obs)
     if fails and default_by_label_class(c):
@@ -336,6 +374,8 @@ def _oracle(case, obs):
 
 
 def nontrivial(case, obs):
+    if case.get('kind') == 'hist':
+        return len(set(obs['status'])) >= 2 or any(o[0] == 'raise' for o in obs['outs'])
     if view(case, obs)['entry'] == 'iter_periods':
         return obs['out'][0] == 'raise' or len(obs['out'][1]) >= 2
     visited = {e[1] for e in obs['log']}
@@ -343,6 +383,8 @@ def nontrivial(case, obs):
 
 
 def bucket(case, obs):
+    if case.get('kind') == 'hist':
+        return 'hist/%s/%d calls/%s' % (case['span_type'], len(case['calls']), ''.join(sorted(set(obs['status']))))
     out = obs['out']
     kind0 = case.get('kind', 'scripted')
     case = view(case, obs)
@@ -352,6 +394,13 @@ def bucket(case, obs):
 
 
 def shrink_candidates(case):
+    if case.get('kind') == 'hist':
+        for i in reversed(range(len(case['calls']))):
+            if len(case['calls']) > 1:
+                c = copy.deepcopy(case)
+                del c['calls'][i]
+                yield c
+        return
     if case.get('kind') == 'parsed':
         for fld in ('start', 'end'):
             if case[fld] is not None and case['entry'] == 'solve':
